@@ -4,6 +4,7 @@ import Driver.Iter
 import Driver.Custom
 import Driver.Edit
 import Driver.Lower
+import Driver.Helpers
 open Driver
 
 def step (line : String) : List String :=
@@ -14,6 +15,7 @@ def step (line : String) : List String :=
   | "custom" :: rest => runCustom rest
   | "edit" :: rest => runEdit rest
   | "lower" :: rest => runLower rest
+  | "helpers" :: rest => runHelpers rest
   | [] => []
   | f :: _ => [s!"{f} ? unknown-family"]
 
